@@ -444,6 +444,9 @@ def colunit(rep, c):
         else:
             widths.add("?")
     r.instance("position:cursor", where(pl["body"]), str(sorted(widths, key=str)))
+    if not steps and any(kind(n) == "MethodCall" and n["m"] in ("fold", "for_each") and any(
+            kind(y) == "MethodCall" and y["m"] == "chars" for y in walk(n["recv"])) for n in walk(pl["body"])):
+        return      # no byte cursor at all: the walk is driven by the `chars()` iterator of the prefix itself
     if "len_utf8" not in widths or "?" in widths:
         r.violation("position:cursor", where(pl["body"]), "the byte cursor of Position::line_col is not stepped by the "
                     "consumed character's len_utf8: after a multi-byte character the walk is out of step with the text")
